@@ -8,7 +8,7 @@ PROPS['C20'] = dict(
     target='Props/C20',
     theorems=['C20_emit_sound', 'C20_emit_sound_partial', 'C20_address_accounts', 'C20_address_transactions', 'C20_list', 'C20_count',
               'C20_pushdown', 'C20_pushdown_covers', 'C20_in_on_metadata_rejected', 'C20_exists_on_balance_rejected', 'C20_log_type_in',
-              'C20_refuted_not_over_absent', 'C20_refuted_bare_balance', 'C20_refuted_empty_or'],
+              'C20_bare_balance', 'C20_refuted_not_over_absent', 'C20_refuted_empty_or'],
     ties=[dict(name='TIE-BD filters', vh='filters', model='filters', n=dict(quick=900, thorough=20000),
                args=dict(quick=['-depth', '4', '-perhist', '18'], thorough=['-depth', '6', '-perhist', '40']), kinds=['C20']),
           dict(name='TIE-BD filters-odd', vh='filters', model='filters', n=dict(quick=400, thorough=8000),
@@ -16,7 +16,7 @@ PROPS['C20'] = dict(
     rule='histories of 1..14 operations generated online on the real stack (accounts with 1-3 segments over a small alphabet, references, metadata on transactions and accounts, reverts, '
          'three assets, back/future-dated timestamps); per history 18 (thorough 40) random filters over the five resources (transactions, accounts, volumes, aggregated balances, logs), '
          'depth <= 4 (thorough <= 6), 35% at a point in time drawn from the history; leaves draw their values from the entities actually present (so partial / prefix addresses, dates, '
-         'balances and metadata hit); second tie adds the forms outside the documented surface (bare balance on accounts, $in on metadata / log type, $exists on balance, empty $and/$or, '
+         'balances and metadata hit); second tie adds the forms outside the documented surface ($in on metadata, $exists on balance, empty $and/$or, '
          'keys of other resources, wrong operators and value types). non-trivial = filter selecting neither nothing nor everything, distinct by (resource, filter, selected keys); '
          'a quarter of the filters (40% on volumes / aggregated balances) are negation-heavy: nested $not (double / triple), $not over $and / $or mixing an address-carrying subtree '
          '(mostly partial / prefix, also exact and $in) with non-address leaves, incl. NOT(X AND NOT A) templates; '
@@ -29,9 +29,9 @@ PROPS['C20'] = dict(
                 'incl. the lateral push-down and SQLSTATE 21000; (ref) filter flt_sat — the Coq reference meaning; (where) printed flt_emit; (push) the push-down DECISION: safe_lateral, need_segments, collect_addrs vs the real canPushAddressFilterToLateral / collectAddressFilters '
                 '(in-package hook) for every generated filter, so a wrong decision is a model/impl difference even when no row is lost. All four must be textually equal. '
                 'Monitor (independent Go evaluator): listed = matching, count = len(listed), well-formed filters are accepted, ill-formed rejected, no panic. '
-                'The full statement is REFUTED by the faithful model in three unrepaired ways (C20_refuted_not_over_absent, C20_refuted_bare_balance, C20_refuted_empty_or), each reproduced on the real '
-                'code (known_findings.d/filter.json); four further defects found here were repaired in /repo (fixes/01..04: $in on log type, $exists on balance, $in on metadata, push-down '
-                'ignoring $in) and are now positive theorems (C20_log_type_in, C20_exists_on_balance_rejected, C20_in_on_metadata_rejected, C20_pushdown: with canPush the pre-filtered '
+                'The full statement is REFUTED by the faithful model in two unrepaired ways (C20_refuted_not_over_absent, C20_refuted_empty_or), each reproduced on the real '
+                'code (known_findings.d/filter.json); five further defects found here were repaired in /repo (fixes/01..04, filter-08: $in on log type, $exists on balance, $in on metadata, push-down '
+                'ignoring $in, bare balance on accounts as a scalar sub-select) and are now positive theorems (C20_bare_balance, C20_log_type_in, C20_exists_on_balance_rejected, C20_in_on_metadata_rejected, C20_pushdown: with canPush the pre-filtered '
                 'dataset lists exactly the matching entities). C20_emit_sound / C20_emit_sound_partial are the strongest true statements (no depth bound).',
     trusted=FILTER_TRUST,
     technique='Coq proof by induction on the filter (SQL three-valued logic; jsonb containment / jsonpath address forms by induction on segments) + differential run of the extracted '
@@ -39,7 +39,7 @@ PROPS['C20'] = dict(
     level_text='Unbounded theorems about Ledger/Filter.v: for every filter without a nullable leaf (resp. with nullable leaves not below a $not) the emitted condition, evaluated with SQL '
                'three-valued logic on the dataset row of an entity, is TRUE exactly when the entity satisfies the filter under its documented meaning (exact / partial / prefix addresses, '
                '$in, metadata match / exists, balances, dates, reverted, reference, $and/$or/$not); list = filter sat, count = length. The lateral push-down is proved equivalent to the plain dataset (C20_pushdown). The full statement '
-               'is refuted in three unrepaired ways (witnesses reproduced on the real code). Tie: model = real stack on result sets, counts, error classes and WHERE text.',
+               'is refuted in two unrepaired ways (witnesses reproduced on the real code). Tie: model = real stack on result sets, counts, error classes and WHERE text.',
     level_note='Trusted: Coq kernel; extraction; pgsem as stand-in for PostgreSQL; the OCaml printer of the condition AST; the Go harness. Point-in-time datasets themselves (which '
                'entities exist at t, metadata/volumes as of t) are taken from the unfiltered real read at the same t (they are the subject of C05/C17), not modelled here.',
 )
